@@ -321,3 +321,36 @@ Theorem canvas_closed_thm : forall e,
 Proof. intros e. rewrite !canvas_count. apply grid_closed_count. exact Hbox. Qed.
 End Box.
 End Canvas.
+
+(* ---------- a box around all fields: canvas_closed without a box in the statement ---------- *)
+Definition pmax (a b : pt) : pt :=
+  let '(ax, ay, az) := a in let '(bx, by_, bz) := b in (Z.max ax bx, Z.max ay by_, Z.max az bz).
+Definition bbox (fields : list fld) : pt * pt :=
+  fold_right (fun f acc => (pmin (fst acc) (blo f), pmax (snd acc) (bhi f))) ((0, 0, 0), (0, 0, 0)) fields.
+
+Lemma bbox_contains fields f p : In f fields -> strictly_inside (blo f) (bhi f) p ->
+  strictly_inside (fst (bbox fields)) (snd (bbox fields)) p.
+Proof.
+  induction fields as [|g r IH]; intros Hin Hp; [destruct Hin|]. cbn [bbox fold_right fst snd]. fold (bbox r).
+  destruct Hin as [->|Hin].
+  - destruct (fst (bbox r)) as [[ax ay] az], (snd (bbox r)) as [[cx cy] cz], (blo f) as [[lx ly] lz],
+      (bhi f) as [[hx hy] hz], p as [[x y] z]. unfold strictly_inside, pmin, pmax in *. lia.
+  - specialize (IH Hin Hp).
+    destruct (fst (bbox r)) as [[ax ay] az], (snd (bbox r)) as [[cx cy] cz], (blo g) as [[lx ly] lz],
+      (bhi g) as [[hx hy] hz], p as [[x y] z]. unfold strictly_inside, pmin, pmax in *. lia.
+Qed.
+
+Theorem canvas_closed_all_thm : forall (A : Type) (below : A -> bool) (store : pt -> Z -> A) (stored : pt -> A)
+  (fields : list fld),
+  (forall blk loc, present (blocks fields) blk = true -> in_block loc ->
+     store blk (index loc) = stored (global_cell blk loc)) ->
+  (forall p, below (stored p) = true -> exists f, In f fields /\ strictly_inside (blo f) (bhi f) p) ->
+  forall e : dedge,
+    countd e (dedges (canvas_surface below store (blocks fields))) =
+    countd (swap e) (dedges (canvas_surface below store (blocks fields))) /\
+    (countd e (dedges (canvas_surface below store (blocks fields))) <= 1)%nat.
+Proof.
+  intros A below store stored fields Inv Hdom e.
+  apply (canvas_closed_thm below store stored fields Inv Hdom (fst (bbox fields)) (snd (bbox fields))).
+  intros p Hp. destruct (Hdom p Hp) as [f [Hf Hin]]. eapply bbox_contains; eauto.
+Qed.
